@@ -36,6 +36,11 @@ CHECKS = {
          "The real fsloop.Loop runs over generated trees (empty, deep, wider than the channel capacity, random), hash-keyed filters, producer/consumer limits 0..16 and GOMAXPROCS 1/2/4/16, with noise injected from the hook points and the source's ReadDir and one injected callback or listing fault in part of the runs; callbacks log enter/exit events and an offline checker decides exactly-once, no unexpected node, in-flight bound, nothing after Wait, error present iff injected. A controller parks every consumer at the hook between its two exit tests while a gated source lets the last directory be listed and the close be announced (also through fshelper.Copy). Race reports in fsloop/jobsync decide. Held on the schedules produced, counted by hook-order signature.",
          "interleavings are sampled, not enumerated; only the window for which hooks exist is forced deterministically",
          "DESIGN.md §5 C08"),
+ "C09": ("exploration",
+         "concurrent stress with online value oracles, porcupine linearizability checking of recorded per-file histories, quiescence checks, goroutine-dump deadlock diagnosis, schedule perturbation through verif yield hooks, Go race detector",
+         "2..32 goroutines share one memfs under GOMAXPROCS 1/2/4/16 with yields and sleeps injected at three memfs hook points: writers to distinct files plus listers (unique names, no phantom entries, every successful write present at quiescence); writers, readers and removers on 1-3 shared files with unique checksummed values (every value read is complete and was written; each file's recorded history is checked by porcupine against a register-with-existence model); N concurrent creations of one new node yield one node; short mixed histories are checked against a whole-tree sequential model (observational) and against the spelled-out clauses. Panics, fatal runtime errors, a deadlock diagnosis from goroutine dumps and race reports in memfs decide. Held on the interleavings produced.",
+         "mixed-history non-linearizability is an observation unless it breaks a clause the statement spells out; stream handles are always closed",
+         "DESIGN.md §5 C09"),
  "C10": ("exploration",
          "lock-step reference-model monitor (operational DI model with invocation counters and instance identity) over bounded-exhaustive definition sequences and random programs",
          "Every program (all definition sequences up to a length bound over a call alphabet with failing/flaky/optional/cyclic factory shapes, plus seeded random programs on four construction paths incl. the goatapp mock application) is run against the real container and against a model written from the statement; the event traces (ok/error class, instance identity, per-factory invocation counts, acceptance of definitions) must match, and model-independent checks (identity never changes, no re-run after an instance, explicit beats default, late definitions refused, cycles end in an error) run on the container side. Held on the programs executed.",
